@@ -1161,6 +1161,11 @@ func mainFlow(repo string) {
 // are walked too (path components "g<k>:go", "l<k>:lit"). The branch path has one component per
 // enclosing if (t/e), switch case (c<j>) and loop.
 func funcFlow(repo, rel, recv, name, leanName, doc string) {
+	rows := funcFlowRows(repo, rel, recv, name)
+	fmt.Fprintf(&out, "/-- %s -/\ndef %s : List (String × String × List (String × String)) := [\n%s]\n\n", doc, leanName, strings.Join(rows, ",\n"))
+}
+
+func funcFlowRows(repo, rel, recv, name string) []string {
 	f := parse(filepath.Join(repo, rel))
 	fn := findFunc(f, recv, name)
 	if fn == nil {
@@ -1177,6 +1182,14 @@ func funcFlow(repo, rel, recv, name, leanName, doc string) {
 		rows = append(rows, fmt.Sprintf("  (%s, %s, [%s])", q(kind), q(detail), strings.Join(comps, ", ")))
 	}
 	ext := func(path []string, c string) []string { return append(append([]string{}, path...), c) }
+	returnsErr := func(ft *ast.FuncType) bool {
+		if ft.Results == nil || len(ft.Results.List) == 0 {
+			return false
+		}
+		id, ok := ft.Results.List[len(ft.Results.List)-1].Type.(*ast.Ident)
+		return ok && id.Name == "error"
+	}
+	curErr := returnsErr(fn.Type)
 	var walk func(stmts []ast.Stmt, path []string)
 	// a function literal called on the spot inside an expression: walk its body
 	lits := func(n ast.Node, path []string) {
@@ -1184,7 +1197,10 @@ func funcFlow(repo, rel, recv, name, leanName, doc string) {
 			if c, ok := m.(*ast.CallExpr); ok {
 				if fl, ok := c.Fun.(*ast.FuncLit); ok {
 					counter++
+					save := curErr
+					curErr = returnsErr(fl.Type)
 					walk(fl.Body.List, ext(path, fmt.Sprintf("l%d:lit", counter)))
+					curErr = save
 					return false
 				}
 			}
@@ -1203,9 +1219,9 @@ func funcFlow(repo, rel, recv, name, leanName, doc string) {
 					rs = append(rs, srcText(r))
 				}
 				kind := "return"
-				if n := len(t.Results); n > 0 {
+				if n := len(t.Results); n > 0 && curErr {
 					if id, ok := t.Results[n-1].(*ast.Ident); !ok || id.Name != "nil" {
-						kind = "return-err" // the last result is not the literal nil
+						kind = "return-err" // the function's last result is an error and this is not the literal nil
 					}
 				}
 				add(kind, strings.Join(rs, ", "), path)
@@ -1283,7 +1299,10 @@ func funcFlow(repo, rel, recv, name, leanName, doc string) {
 				if fl, ok := t.Call.Fun.(*ast.FuncLit); ok {
 					counter++
 					add("go", "", ext(path, fmt.Sprintf("g%d:go", counter)))
+					save := curErr
+					curErr = returnsErr(fl.Type)
 					walk(fl.Body.List, ext(path, fmt.Sprintf("g%d:go", counter)))
+					curErr = save
 				} else {
 					add("go", srcText(t.Call), path)
 				}
@@ -1326,7 +1345,23 @@ func funcFlow(repo, rel, recv, name, leanName, doc string) {
 		}
 	}
 	walk(fn.Body.List, nil)
-	fmt.Fprintf(&out, "/-- %s -/\ndef %s : List (String × String × List (String × String)) := [\n%s]\n\n", doc, leanName, strings.Join(rows, ",\n"))
+	return rows
+}
+
+// graphFlows: the statement lists of the aggregator core of sizes/graph.go, one per function
+func graphFlows(repo string) {
+	fns := [][2]string{{"Graph", "RegisterBlob"}, {"Graph", "RegisterTree"}, {"treeRecord", "initialize"}, {"treeRecord", "maybeFinalize"},
+		{"Graph", "finalizeTreeSize"}, {"Graph", "RequireTreeSize"}, {"Graph", "GetTreeSize"}, {"Graph", "GetBlobSize"},
+		{"Graph", "RegisterCommit"}, {"Graph", "GetCommitSize"},
+		{"Graph", "RegisterTag"}, {"tagRecord", "initialize"}, {"tagRecord", "maybeFinalize"}, {"Graph", "finalizeTagSize"}, {"Graph", "RequireTagSize"},
+		{"Graph", "RegisterReference"}, {"Graph", "HistorySize"}}
+	var defs []string
+	for _, fn := range fns {
+		rows := funcFlowRows(repo, "sizes/graph.go", fn[0], fn[1])
+		defs = append(defs, fmt.Sprintf("  (%s, [\n  %s])", q(fn[0]+"."+fn[1]), strings.Join(rows, ",\n  ")))
+	}
+	out.WriteString("/-- the aggregator core of sizes/graph.go: (Type.method, every statement in source order as (kind, text, branch path)) -/\n")
+	out.WriteString("def graphFlows : List (String × List (String × String × List (String × String))) := [\n" + strings.Join(defs, ",\n") + "]\n\n")
 }
 
 func main() {
@@ -1352,6 +1387,7 @@ func main() {
 	scanPhases(repo)
 	resolverSites(repo)
 	mainFlow(repo)
+	graphFlows(repo)
 	funcFlow(repo, "sizes/graph.go", "", "ScanRepositoryUsingGraph", "scanFlow", "sizes.ScanRepositoryUsingGraph, EVERY statement in source order: (kind, text, branch path)")
 	out.WriteString("end Gen.Cmds\n")
 	if err := os.WriteFile(filepath.Join(outdir, "Cmds.lean"), []byte(out.String()), 0o644); err != nil {
